@@ -422,6 +422,18 @@ func c15Processor(c *Check, P string, outer, C *ssa.Function, kind string) {
 				return isIA && IsFullRangeIndex(ia.Index, ia.X)
 			})
 			c.Report(ok, P+".O4", "GROUP-ORDER", C, h.Pos(), "group handler call", "handlers are taken from the registered slice by a full ascending range loop (registration order)")
+			own := Wraps(h.Common().Args[0], func(v ssa.Value) bool {
+				u, isU := v.(*ssa.UnOp)
+				if !isU || u.Op != token.MUL {
+					return false
+				}
+				ia, isIA := u.X.(*ssa.IndexAddr)
+				return isIA && AllOrigins(ia.X, func(o ssa.Value) bool {
+					p, isP := o.(*ssa.Parameter)
+					return isP && C.Parent() != nil && p.Parent() == C.Parent()
+				})
+			})
+			c.Report(own, P+".O4", "GROUP-OWN-HANDLERS", C, h.Pos(), "group handler call", "the slice ranged over is the handler list this group's router handler was built with (not an index shared between groups: another group's handlers of the same event type must not run)")
 		}
 		// mismatch ⇒ next handler, nothing else
 		for _, e := range mismatch {
